@@ -38,7 +38,7 @@ CHUNK = 8
 
 WEIGHTS = dict(e1.DEFAULT_WEIGHTS)
 WEIGHTS.update({"conj": 3, "transpose": 4, "copy": 3, "fuse": 3.5, "unfuse": 3, "add_leg": 2, "remove_leg": 2, "svd": 2.5,
-                "observe": 1.5, "eigh_gram": 1, "swap_gate": 1.5, "dict_arg": 1.5, "blocks": 1})
+                "observe": 1.5, "eigh_gram": 1, "swap_gate": 1.5, "dict_arg": 1.5, "blocks": 1, "entropy": 1.2, "rand_diag": 2})
 
 
 def budget(tier):
@@ -148,6 +148,103 @@ class OpContainerCopy(e1.Op):
         return [sins[0].copy() if hasattr(sins[0], "copy") else sins[0]]
 
 
+@e1.register
+class OpEntropy(e1.Op):
+    """yastn.entropy on a pool tensor (diagonal, un-normalised weights): returns a number and must leave the operand alone."""
+    name = "entropy"
+
+    def gen(self, g):
+        a = g.pick_tensor(lambda s, v, sh: v.isdiag and v.size > 0 and not v.is_complex())
+        if a is None:
+            return None
+        return {"op": "entropy", "in": [a], "args": {"alpha": g.rng.choice([1, 1, 2, 0.5])}}
+
+    def run(self, task, rec, ins):
+        import warnings
+        with warnings.catch_warnings():
+            warnings.simplefilter("ignore")          # weights may be negative here: the value is irrelevant, the operand is what is watched
+            return [float(np.real(yastn.entropy(ins[0], alpha=rec["args"]["alpha"])))]
+
+    def shadow(self, task, rec, sins, outs, ins=None):
+        return [None]
+
+
+@e1.register
+class OpDptMake(e1.Op):
+    """A two-layer PEPS tensor as a pool object (optionally with an operator and charge swaps), and its documented views."""
+    name = "p_dpt_make"
+    creates = True
+
+    def gen(self, g):
+        t = g.task
+        peps = [s for s, v in t.slots.items() if e3.is_peps(v)]
+        dpts = [s for s, v in t.slots.items() if isinstance(v, fpeps.DoublePepsTensor)]
+        if dpts and g.rng.random() < 0.5:
+            return {"op": "p_dpt_make", "in": [g.rng.choice(dpts)], "args": {"kind": g.rng.choice(["copy", "clone", "transpose", "conj", "flip_signature"]), "k": g.rng.randrange(4)}}
+        if not peps:
+            return None
+        ch = sorted(t.space.charged())
+        swaps = []
+        if ch and g.rng.random() < 0.7:
+            for _ in range(g.rng.randint(1, 3)):
+                swaps.append([g.rng.choice("bk") + str(g.rng.randrange(5)), list(t.space.table[g.rng.choice(ch)].n)])
+        return {"op": "p_dpt_make", "in": [g.rng.choice(peps)], "args": {"kind": "new", "site": list(g.rng.choice(t.sites)), "with_op": g.rng.choice([None] + sorted(t.space.table)), "swaps": swaps}}
+
+    def run(self, task, rec, ins):
+        ar = rec["args"]
+        if ar["kind"] == "new":
+            A = ins[0][tuple(ar["site"])]
+            d = fpeps.DoublePepsTensor(bra=A, ket=A)
+            if ar["with_op"]:
+                d.set_operator_(task.space.table[ar["with_op"]])
+            for ax, ch in ar["swaps"]:
+                d.add_charge_swaps_(tuple(ch), ax)
+            return [d]
+        if ar["kind"] == "transpose":
+            return [ins[0].transpose(axes=e3.ALLOWED_TRANS[ar["k"]])]
+        return [getattr(ins[0], ar["kind"])()]
+
+    def shadow(self, task, rec, sins, outs, ins=None):
+        return [None]
+
+
+@e1.register
+class OpDptInplace(e1.Op):
+    """Documented in-place API of the two-layer tensor: add_charge_swaps_, del_charge_swaps_, set_operator_, del_operator_."""
+    name = "p_dpt_inplace"
+    inplace = True
+
+    def nout(self, rec):
+        return 0
+
+    def gen(self, g):
+        t = g.task
+        dpts = [s for s, v in t.slots.items() if isinstance(v, fpeps.DoublePepsTensor)]
+        ch = sorted(t.space.charged())
+        if not dpts:
+            return None
+        kind = g.rng.choice(["add_swaps", "add_swaps", "add_swaps", "del_swaps", "set_op", "del_op"] if ch else ["set_op", "del_op"])
+        args = {"kind": kind}
+        if kind == "add_swaps":
+            args["charge"] = list(t.space.table[g.rng.choice(ch)].n)
+            args["axes"] = [g.rng.choice("bk") + str(g.rng.randrange(5)) for _ in range(g.rng.randint(1, 2))]
+        if kind == "set_op":
+            args["op"] = g.rng.choice(sorted(t.space.table))
+        return {"op": "p_dpt_inplace", "in": [g.rng.choice(dpts)], "args": args}
+
+    def run(self, task, rec, ins):
+        d, ar = ins[0], rec["args"]
+        if ar["kind"] == "add_swaps":
+            d.add_charge_swaps_(tuple(ar["charge"]), ar["axes"])
+        elif ar["kind"] == "del_swaps":
+            d.del_charge_swaps_()
+        elif ar["kind"] == "set_op":
+            d.set_operator_(task.space.table[ar["op"]])
+        else:
+            d.del_operator_()
+        return []
+
+
 def list_blocks(x):
     """(logical key, shape) of the blocks of x, by trial block access only."""
     import itertools
@@ -255,7 +352,7 @@ def apply_mutation(task, ev):
 
 WEIGHTS_E2 = {"m_random_mps": 3, "m_random_mpo": 1.5, "m_product_mps": 0.7, "m_add": 1.5, "m_scal": 1, "m_matmul": 1, "m_unary": 6, "m_inplace": 6,
               "m_measure": 1.5, "m_zipper": 0.7, "m_spectrum": 1, "c_dict": 2, "c_copy": 5}
-WEIGHTS_E3 = {"p_init": 1.2, "p_prepare": 0.6, "p_gate": 5, "p_copy": 4, "p_add": 1, "p_env": 1.5, "p_measure": 3, "p_evolve": 1.2, "p_dpt": 1, "c_dict": 2, "c_copy": 3}
+WEIGHTS_E3 = {"p_init": 1.2, "p_prepare": 0.6, "p_gate": 5, "p_copy": 4, "p_add": 1, "p_env": 1.5, "p_measure": 3, "p_evolve": 1.2, "p_dpt": 1, "c_dict": 2, "c_copy": 3, "p_dpt_make": 3, "p_dpt_inplace": 3}
 
 
 def build(seed, tier):
@@ -395,7 +492,7 @@ def simulate(case, draw):
                         role = "copy()/clone() result or source" if any(k in pr and rec["in"][0] in pr for pr in copies) else "object that shares no memory with the receiver"
                     raise core.Violation(PROP, "O2-inplace-leaks" if op.inplace else "O1-operand-modified", "op %s %s changed slot %d (%s)" % (rec["op"], rec["args"], k, role),
                                          op=rec["op"], slot=k, kind=str(rec["args"].get("kind")))
-            if outs is not None and rec["op"] in ("copy", "m_unary", "p_copy", "c_copy") and rec["args"]["kind"] in ("copy", "clone"):
+            if outs is not None and rec["op"] in ("copy", "m_unary", "p_copy", "c_copy", "p_dpt_make") and rec["args"]["kind"] in ("copy", "clone"):
                 src, dst = task.slots[rec["in"][0]], outs[0]
                 info["copy_pairs"] += 1
                 copies.append((rec["in"][0], rec["out"][0]))
